@@ -47,7 +47,7 @@ class Contract:
     def setup(self, c):
         raise NotImplementedError
 
-    def requires(self, c, **a):
+    def requires(me, c, **a):
         return []
 
     def spec(self, c, **a):
@@ -60,6 +60,9 @@ class Contract:
         except PyRaise as e:
             want = ("raise", e.etype)
         self.compare_outcome(c, outcome, want)
+        if "self" in pre and outcome[0] == want[0] and getattr(self, "compare_state", True):
+            # methods: the specification mutates its (copied) receiver; the final states must agree
+            assert_same("self", post["self"], pre["self"], "post")
 
     def compare_outcome(self, c, outcome, want):
         if outcome[0] != want[0]:
